@@ -211,6 +211,16 @@ M("c15-cbf-token-revert", "C15", "flexstack/geonet/router.py",
   "            if token is not None and getattr(timer, \"cbf_token\", token) is not token:\n", "            if False:\n",
   "revert: an expired contention timer transmits whatever copy is buffered under its key")
 
+M("c08-ls-keeps-stale-revert", "C08", "flexstack/geonet/location_table.py",
+  "                    if entry._pv_received:  # pylint: disable=protected-access
+                        entry._pv_received = False  # pylint: disable=protected-access
+                        entry.is_neighbour = False
+",
+  "                    if False:
+                        entry._pv_received = False  # pylint: disable=protected-access
+                        entry.is_neighbour = False
+",
+  "revert: a pending lookup keeps an outdated entry (and neighbour) alive")
 
 # ---------------------------------------------------------------- C09
 M("c09-no-sig", "C09", "flexstack/security/certificate.py",
